@@ -8,7 +8,7 @@ SPEC = {
     "lean_modules": ["PallasVerif.Props.C28"],
     "required_theorems": ["initiator_conformant_fails_at_witness", "initiator_conformant_partial", "emit_permitted_by_own_view",
                           "lockstep_is_schedule", "lockstep_run_is_schedule"],
-    "streams": [{"name": "p2p_sched", "quick": 300, "thorough": 8000}],
+    "streams": [{"name": "p2p_sched", "quick": 800, "thorough": 25000}],
     "rule": "schedules (10..300 steps, 1..3 peers) of commands (hk/idle, include, startsync, continuesync, reqblocks, fetcheb, "
             "ban/demote) interleaved with connect / confirm (Sent) / arrive / reply (7 protocols, 1..4 reply choices) / deliver "
             "(batches of 1..3) / drop / fail steps against a specification-conformant simulated responder; two thirds of the "
